@@ -143,6 +143,52 @@ def append_iteration(prog, res):
         raise AnalysisBroken("Tiff::append no longer builds the per-frame tags the rule knows (%d found)" % seen)
 
 
+FORMAT_SINKS = {"vsnprintf": 2, "snprintf": 2, "vsprintf": 1, "sprintf": 1, "printf": 0, "vprintf": 0}
+
+
+def format_literals(prog, res):
+    """Description strings: whatever reaches the format parameter of the
+    printf family in tiff.cpp is a string literal; frame ids, timestamps and the
+    user's metadata are only ever passed as arguments."""
+    R = "R-FMT-LITERAL"
+    fns = [f for f in prog.all_funcs() if f.file.endswith("storage/tiff.cpp")]
+    sinks = dict(FORMAT_SINKS)
+    changed = True
+    while changed:
+        changed = False
+        for f in fns:
+            for b, i, s in f.all_stmts():
+                for c in ir.calls_in(s):
+                    k = sinks.get(c.get("fn"))
+                    if k is None or k >= len(c.get("args", [])):
+                        continue
+                    a = ir.strip(c["args"][k])
+                    if isinstance(a, dict) and a.get("k") == "var" and "p" in a and f.name not in sinks:
+                        sinks[f.name] = a["p"]
+                        changed = True
+    n = 0
+    for f in fns:
+        for b, i, s in f.all_stmts():
+            for c in ir.calls_in(s):
+                k = sinks.get(c.get("fn"))
+                if k is None or k >= len(c.get("args", [])):
+                    continue
+                a = ir.strip(c["args"][k])
+                if isinstance(a, dict) and a.get("k") == "var" and "p" in a and sinks.get(f.name) == a["p"]:
+                    continue  # forwarding its own format parameter
+                n += 1
+                res.touched(f)
+                lit = isinstance(a, dict) and (a.get("k") == "str" or ir.is_const(a, 0))
+                inst = "%s: format of %s is a literal" % (f.name.split("::")[-1], (c.get("fn") or "").split("::")[-1])
+                if lit:
+                    res.oblige(R, inst, True, "\"%s...\"" % a.get("v", "")[:30], f.loc(s))
+                else:
+                    res.fail(R, inst, "R-FMT-LITERAL|%s|%s" % (f.name, c.get("fn")), f.loc(s),
+                             "%s passes a computed string (%s) as the printf format of %s: a '%%' in the user's metadata is interpreted as a conversion and corrupts (or crashes) the description"
+                             % (f.name, ir.render(a), c.get("fn")))
+    return n
+
+
 def run(ctx, res):
     prog = ctx.program()
     res.extra["explanation"] = EXPLANATION
@@ -155,6 +201,8 @@ def run(ctx, res):
     sample_format_exhaustive(prog, res)
     header_constants(prog, res)
     append_iteration(prog, res)
+    if format_literals(prog, res) < 1:
+        raise AnalysisBroken("no format-string call sites found in tiff.cpp")
     res.require_min("FINALISE-SIM", 4)
     res.require_min("T-EXH", 8)
     res.require_min("T-CONST", 2)
